@@ -428,6 +428,14 @@ class Probe:
             if isinstance(v, int):
                 return v
             raise NoEval("cast")
+        if k == "index":
+            base = self.ev(e["e"], env)
+            idx = self.ev(e["idx"], env)
+            if isinstance(base, list) and isinstance(idx, int) and not isinstance(idx, bool):
+                if 0 <= idx < len(base):
+                    return base[idx]
+                raise Panic("index %d out of bounds of a list of %d" % (idx, len(base)))
+            raise NoEval("index into %s" % type(base).__name__)
         raise NoEval("expression %s" % k)
 
     def block(self, blk, env):
